@@ -35,8 +35,8 @@ def run(ctx: core.Ctx):
     worst = 0.0
     for palette in ("dyadic", "decimal"):
         head = f'SPECIFICATION Spec\nCONSTANTS Palette = "{palette}"\n'
-        ctx.expect_holds(ctx.tlc("MC_Tsukamoto", write_cfg(f"MC_Tsukamoto_{palette}", head + "  Emit = FALSE\nINVARIANT InverseExact\nINVARIANT MonotoneZ\nCHECK_DEADLOCK FALSE\n"), workers=16), "MC_Tsukamoto")
-        g = ctx.tlc("MC_Tsukamoto", write_cfg(f"Gen_Tsukamoto_{palette}", head + "  Emit = TRUE\nINVARIANT EmitInv\nCHECK_DEADLOCK FALSE\n"), workers=1)
+        g = ctx.tlc("MC_Tsukamoto", write_cfg(f"MC_Tsukamoto_{palette}", head + "  Emit = TRUE\nINVARIANT InverseExact\nINVARIANT MonotoneZ\nINVARIANT EmitInv\nCHECK_DEADLOCK FALSE\n"), workers=16)
+        ctx.expect_holds(g, "MC_Tsukamoto")
         groups = {}
         for c in g.emitted:
             groups.setdefault((c["k"], repr(c["p"]), repr(c["h"])), []).append(c)
